@@ -7,8 +7,8 @@ Import ListNotations.
    fuel the model gives itself (|input| + 1) the generator loop ends normally ([Some], never out of
    fuel); every item has the length its own header declares; and the items, each preceded by its k
    foreign bytes, are consecutive slices of the input starting at its first byte. *)
-Theorem C10_terminates_complete_consecutive : forall kind k stream cs,
-  exists items rest, frame kind k stream cs = Some items /\
+Theorem C10_terminates_complete_consecutive : forall T kind k stream cs,
+  exists items rest, frameT T kind k stream cs = Some items /\
     Forall (wfp plen_ccsds) items /\
     consecutive k (if (kind =? 0)%Z then stream else concat cs) items rest.
 Proof. exact frame_terminates. Qed.
@@ -16,8 +16,8 @@ Print Assumptions C10_terminates_complete_consecutive.
 
 (* When read results are non-empty until the source is exhausted (a real reader), the unconsumed
    remainder is shorter than k + 6 bytes or shorter than k + the packet its own header declares. *)
-Theorem C10_remainder_short : forall kind k stream cs, nonempty cs ->
-  exists items rest, frame kind k stream cs = Some items /\
+Theorem C10_remainder_short : forall T kind k stream cs, nonempty cs ->
+  exists items rest, frameT T kind k stream cs = Some items /\
     Forall (wfp plen_ccsds) items /\
     consecutive k (if (kind =? 0)%Z then stream else concat cs) items rest /\
     (length rest < k + 6 \/ length rest < k + plen_ccsds (firstn 6 (skipn k rest))).
